@@ -12,6 +12,7 @@ from harness import dro_oracle as D
 from harness import gen as G
 
 THEOREMS = {
+    'RsomeV.Props.C03Scen': ['RsomeV.RoToRoc.subst_eval', 'RsomeV.C03Scen.item_sound', 'RsomeV.C03Scen.ro_to_roc_sound'],
     'RsomeV.Props.C03Rows': ['RsomeV.C03Rows.first_stage_is_droRow', 'RsomeV.C03Rows.second_stage_gives_H2', 'RsomeV.C03Rows.dro_rows_sound'],
     'RsomeV.Props.C03': ['RsomeV.C03.mixSupport_lift', 'RsomeV.C03.dro_sound', 'RsomeV.C03.finExp_isCondExp', 'RsomeV.C03.dro_sound_compiled', 'RsomeV.C03.dro_sound_end_to_end'],
     'RsomeV.Props.C01': ['RsomeV.C01.rc_sound', 'RsomeV.C01.rc_sound_eq'],
@@ -73,6 +74,7 @@ def search_one(ctx, d, exact=False):
 
 def run(ctx):
     # correspondence: the lifted (probability, scaled-mean) support built by the real mix_support vs the Lean model (exact)
+    C.run_difftest(ctx, 'test_ro_to_roc.py', ctx.n(60, 1000), 'dro.Model.ro_to_roc (scenario-wise substitution of decision rules into robust / linear constraints)')
     C.run_difftest(ctx, 'test_dro_rows.py', ctx.n(60, 1000), 'dro.Model.dro_to_roc (first-stage fragment and second-stage robust rows of an expectation constraint)')
     C.run_difftest(ctx, 'test_mix_support.py', ctx.n(120, 2500), 'Ambiguity.mix_support (lifted support of the event-wise ambiguity set)')
     for k in range(ctx.n(160, 2500)):
